@@ -695,9 +695,9 @@ def r048_wiring(ctx, rule="R04.8"):
             a0, a1, a2 = arg(e, 0, "sensitive_features"), arg(e, 1, "labels"), arg(e, 2, "scores")
             okargs = okargs and a0 is sf and a2 is sp[0].data["result"] and a1 is not None and contains(a1, lambda s_: s_ is y) \
                 and not contains(a1, lambda s_: s_ is r.params["X"]) and not contains(a1, lambda s_: s_ is val[0].data["result"])
-        okargs = okargs and A.eq(arg(sp[0], 0), A.at(sp[0], "self.estimator_")) and arg(sp[0], 1) is r.params["X"] \
-            and A.eq(arg(sp[0], 2), A.at(sp[0], "self._predict_method"))
-        okargs = okargs and arg(val[0], 0) is r.params["X"] and arg(val[0], 1, "y") is y and kw(val[0], "sensitive_features") is r.params["sensitive_features"]
+        okargs = okargs and A.eq(arg(sp[0], 0, "estimator"), A.at(sp[0], "self.estimator_")) and arg(sp[0], 1, "X") is r.params["X"] \
+            and A.eq(arg(sp[0], 2, "predict_method"), A.at(sp[0], "self._predict_method"))
+        okargs = okargs and arg(val[0], 0, "X") is r.params["X"] and arg(val[0], 1, "y") is y and kw(val[0], "sensitive_features") is r.params["sensitive_features"]
     ctx.ob(rule, fq, st[0].node, bool(okargs), "the routine receives (validated sensitive features, labels, scores of estimator_ on X)",
            construct="routine arguments")
     for rq in (eo, simple):
